@@ -123,7 +123,11 @@ PROPS = {
         "level_note": "one reply per query with echoed id and own id, reply shapes, 203/202 conditions, read-only silence, no reply to errors/responses are proved for every handler state; finding F5 (query swallowed by Socket::recv when it reuses a pending bootstrap id) is about the socket layer in front of the handler and is decided by the node engine",
     },
     "C12": {
-        "engines": [{"name": "handler", "quick": 160, "thorough": 1500, "oracle_tag": "C12"}],
+        "engines": [{"name": "handler", "quick": 160, "thorough": 1500, "oracle_tag": "C12"},
+                    # "receiving a query never adds its sender": what a query does to the table entry of its sender
+                    # (also of a sender that was dropped from the contacts) is the table engine's `remote` operation
+                    {"name": "table", "quick": 40, "thorough": 600, "oracle_tag": ["C12", "C10"],
+                     "op_filter": ["remote", "contacts", "counts", "n"]}],
         "constants": ["MAX_BUCKET_SIZE"],
         "trusted": COMMON_TRUST + ["transaction ids, action ids and token secrets are symbolic in the model and canonicalised by order of first appearance on both sides (C19/C06 prove what the symbols stand for)", "tokio timers fire at their deadline rounded up to the 1 ms tick (the observed instant is an oracle input of the `fire` op)"],
         "assumptions": [],
